@@ -87,7 +87,7 @@ func (pr *progRunner) one(w *progWorker, p *Prog) {
 	mo := glrun.RunModel(p.Chunk, pr.setupM)
 	if mo.Indeterminate != "" {
 		r.Count("indeterminate", 1)
-		r.Count("indeterminate/"+firstWords(mo.Indeterminate, 4), 1)
+		r.Count("indeterminate/"+firstWords(mo.Indeterminate, 2), 1)
 		return
 	}
 	if p.Fresh {
